@@ -129,6 +129,12 @@ ENTRIES = [
     ('U.K.smeth', 'conv', XY),
     ('U.K(3).smeth', 'conv', XY),
     ('U.K(3)', 'conv', XY),
+    ('U.Stack().push', 'conv', XY),
+    ('U.Stack([1]).push', 'conv', XY_NOKW),
+    ('U.Falsy().meth', 'conv', XY + [((1, 2, 3), None)]),
+    ('U.EmptyRegistry.make', 'conv', XY),
+    ('U.EmptyRegistry().make', 'conv', XY_NOKW),
+    ('functools.partial(U.Stack().push, 1)', 'conv', [((), None), ((), {'y': 5})]),
     ('U.Unhashable()', 'conv-nocache', XY),
     ('U.Slotted()', 'conv-nocache', XY_NOKW),
     ('U.WithMeta', 'conv', [((1,), None), ((1, 2), {'q': 3}), ((), None), ((), {})]),
@@ -409,7 +415,11 @@ def measure(f, args, kwargs, options, scope, strict):
     d['internal'] = bool(eff.internal_convert_user_code) if eff is not None else False
     target = f
     if inspect.ismethod(f):
-        kind = 'KBoundMethod'
+        try:
+            truthy = bool(f.__self__)
+        except Exception:   # noqa
+            truthy = True
+        kind = 'KBoundMethod' if truthy else 'KBoundMethodFalsy'
     elif inspect.isfunction(f):
         kind = 'KFunctionSelfAttr' if getattr(f, '__self__', None) is not None else 'KFunction'
     elif hasattr(f, '__class__') and hasattr(f.__class__, '__call__'):
@@ -628,6 +638,7 @@ def run_call_case(env, spec, out):
     from malt.impl import api, conversion
     ns = env.namespace()
     f = eval(spec['expr'], ns)
+    f0 = eval(spec['expr'], ns)      # a second, equal object for the direct call (receivers may be stateful)
     args = fix_args(env, spec['args'])
     kwargs = spec['kwargs']
     opts = mkopts(spec['ur'], spec['internal'])
@@ -640,8 +651,8 @@ def run_call_case(env, spec, out):
 
     def direct():
         if kwargs is not None:
-            return f(*args, **dict(kwargs))
-        return f(*args)
+            return f0(*args, **dict(kwargs))
+        return f0(*args)
     env.clear_logs()
     with Quiet():
         want = outcome_of(direct)
@@ -865,7 +876,8 @@ def _check(run, tmp):
     targets = [('U.plain', 'conv', ((1,), {'y': 5})), ('U.K(3).meth', 'conv', ((2,), None)),
                ('U.K(3)', 'conv', ((1,), {})), ('U.lam', 'conv', ((1,), None)),
                ('functools.partial(U.plain, 1)', 'conv', ((), {'y': 5})), ('U.Unhashable()', 'conv-nocache', ((1,), None)),
-               ('U.K.cmeth', 'conv', ((1,), {'y': 3})), ('U.WithMeta', 'conv', ((1,), None))]
+               ('U.K.cmeth', 'conv', ((1,), {'y': 3})), ('U.WithMeta', 'conv', ((1,), None)),
+               ('U.Falsy().meth', 'conv', ((1,), None))]
     nfault = 0
     for si, stage in enumerate(stages):
         ex_choice = excs if thorough else [excs[(si + run.seed) % len(excs)], excs[(si * 3 + 1 + run.seed) % len(excs)]]
@@ -1005,16 +1017,16 @@ def run_e2e(run, tmp, rnd, thorough):
                     continue
                 sh = shapes if thorough else shapes[:2]
                 for args, kwargs in sh:
-                    f = eval(expr, ns)
+                    mk = lambda: eval(expr, ns)      # a fresh, equal callable per call (receivers may be stateful)
                     a = fix_args(env, args)
                     spec = dict(e2e=True, recursive=recursive, expr=expr, klass=klass, args=args, kwargs=kwargs)
                     env.clear_logs()
                     with Quiet():
-                        want = outcome_of(lambda: env.U.call_it(f, a, kwargs))
+                        want = outcome_of(lambda: env.U.call_it(mk(), a, kwargs))
                     wl = env.logs()
                     env.clear_logs()
                     with Quiet(), OpCounter() as ops:
-                        got = outcome_of(lambda: conv_call_it(f, a, None if kwargs is None else dict(kwargs)))
+                        got = outcome_of(lambda: conv_call_it(mk(), a, None if kwargs is None else dict(kwargs)))
                     gl = env.logs()
                     run.count()
                     run.nontriv(('e2e', recursive, expr, repr(args), repr(kwargs)))
@@ -1034,8 +1046,8 @@ def run_e2e(run, tmp, rnd, thorough):
                     if kwargs is not None:
                         env.clear_logs()
                         with Quiet():
-                            want = outcome_of(lambda: env.U.call_star(f, a, kwargs))
-                            got = outcome_of(lambda: conv_call_star(f, a, dict(kwargs)))
+                            want = outcome_of(lambda: env.U.call_star(mk(), a, kwargs))
+                            got = outcome_of(lambda: conv_call_star(mk(), a, dict(kwargs)))
                         if got[:2] != want[:2] if want[0] == 'exc' else got != want:
                             fails.append(('end-to-end (star-args): %s gives %r, original %r' % (expr, got, want), None, spec))
         # frame builtins through a real caller scope (smoke; depth is C14's)
